@@ -68,6 +68,8 @@ def json_namespace(repo, ci):
 
 def run(ctx):
     repo = ctx.repo
+    _bytes_identity_rule(ctx, repo)
+    _key_string_rule(ctx, repo)
     shared.module_state_rule(ctx, 'C11.j', ['cirq-core/cirq/protocols/', 'cirq-core/cirq/value/', 'cirq-core/cirq/study/', 'cirq-core/cirq/_compat.py'], floor=3)
     ctx.decided.append('C11.j JSON/equality machinery keeps no state between calls apart from the tabled import-time registries')
     ctx.decided += [
@@ -553,3 +555,104 @@ def _value_equality_rules(ctx, repo):
         ctx.ob('C11.h', f'{ci.qual}:no-late-writes' + (':' + ','.join(bad) if bad else ''), not bad,
                f'method(s) store into equality field(s) after construction: {bad}; the memoised hash/values go stale' if bad else '',
                ci.mod.rel, ci.node.lineno, construct=ci.qual)
+
+
+# (class qual, method): why hashing / comparing raw bytes is sound there
+BYTES_IDENTITY_OK = {
+    ('cirq.qis.clifford_tableau.CliffordTableau', '__hash__'): 'xs/zs/rs are validated to be bool arrays of fixed shape at construction, so equal tableaux have equal bytes',
+    ('cirq.ops.clifford_gate.CliffordGate', '_value_equality_values_'): 'bytes of a CliffordTableau (bool arrays, see above)',
+    ('cirq.ops.clifford_gate.SingleQubitCliffordGate', '_value_equality_values'): 'bytes of a CliffordTableau (bool arrays, see above); cached helper behind _value_equality_values_',
+}
+
+
+def _bytes_identity_rule(ctx, repo):
+    """C11.k - hash/equality never depend on how numbers are stored (dtype, byte order, -0.0) except where the storage is pinned."""
+    ctx.decided.append('C11.k __hash__ / __eq__ / _value_equality_values_ use the numbers, not their storage: .tobytes(), memoryview/.data, id() appear only in the tabled classes '
+                       'whose arrays have a validated fixed dtype (equal values with different dtype must hash alike, e.g. a complex64 matrix read back as complex128 from JSON)')
+    ctx.rule('C11.k', 'representation-independent identity: inside __hash__, __eq__, _value_equality_values_ and _value_equality_approximate_values_ of every class outside contrib, a call '
+             'of .tobytes() / .tostring() / .view(np.uint8) / id(...) or a read of .data/.ctypes occurs only at the tabled sites (pinned dtype)', floor=3, style='WMW')
+    n = 0
+    seen = set()
+    for m in sorted(repo.modules.values(), key=lambda x: x.rel):
+        if m.rel.endswith('_test.py') or '/testing/' in m.rel or '/contrib/' in m.rel or '_pb2' in m.rel:
+            continue
+        for cls in [c for c in ast.walk(m.tree) if isinstance(c, ast.ClassDef)]:
+            for fn in [f for f in cls.body if isinstance(f, ast.FunctionDef) and (f.name in ('__hash__', '__eq__') or f.name.startswith('_value_equality_'))]:
+                sites = []
+                for c in ast.walk(fn):
+                    if isinstance(c, ast.Call) and isinstance(c.func, ast.Attribute) and c.func.attr in ('tobytes', 'tostring'):
+                        sites.append(c)
+                    elif isinstance(c, ast.Call) and isinstance(c.func, ast.Name) and c.func.id in ('id', 'memoryview'):
+                        sites.append(c)
+                    elif isinstance(c, ast.Attribute) and c.attr in ('ctypes',) and isinstance(c.ctx, ast.Load):
+                        sites.append(c)
+                if not sites:
+                    continue
+                qual = None
+                for cand in (f'{m.name}.{cls.name}',):
+                    qual = cand
+                n += 1
+                why = BYTES_IDENTITY_OK.get((qual, fn.name))
+                seen.add((qual, fn.name))
+                ctx.ob('C11.k', f'{qual}.{fn.name}:bytes-identity', why is not None, ('tabled: ' + why) if why else
+                       f'{cls.name}.{fn.name} uses `{ast.unparse(sites[0])[:60]}`: the result depends on dtype / byte order / signed zeros, while equality compares the numbers - equal objects '
+                       '(e.g. the same matrix in complex64 and, after a JSON round trip, complex128) get different hashes', m.rel, sites[0].lineno)
+    stale = set(BYTES_IDENTITY_OK) - seen
+    if stale:
+        raise AnalysisError(f'C11.k: tabled sites vanished: {sorted(stale)}')
+
+
+def _key_string_rule(ctx, repo):
+    """C11.l - MeasurementKey: parse_serialized is the inverse of __str__ (measurement gates store the key as that string in JSON)."""
+    from .. import fdx
+    ctx.decided.append('C11.l MeasurementKey.parse_serialized(str(key)) rebuilds name and every path component (interpreted for path depths 0..4): gates write their key to JSON as this string')
+    ctx.rule('C11.l', 'key string round trip: interpreting MeasurementKey.__str__ and then MeasurementKey.parse_serialized on model keys (name m, paths of depth 0..4, components of '
+             'different lengths) yields MeasurementKey(name, path) with the same name and the same path tuple', floor=5, style='FDX')
+    ci = repo.cls('cirq.value.measurement_key.MeasurementKey')
+    sfn = repo.method(ci.qual, '__str__')
+    pfn = repo.method(ci.qual, 'parse_serialized')
+    sep = None
+    for st in ci.mod.tree.body:
+        if isinstance(st, ast.Assign) and isinstance(st.targets[0], ast.Name) and st.targets[0].id == 'MEASUREMENT_KEY_SEPARATOR' and isinstance(st.value, ast.Constant):
+            sep = st.value.value
+    if sep is None:
+        raise AnalysisError('MEASUREMENT_KEY_SEPARATOR vanished')
+    joins = [c for c in ast.walk(sfn) if isinstance(c, ast.Call) and isinstance(c.func, ast.Attribute) and c.func.attr == 'join']
+    if len(joins) != 1:
+        raise AnalysisError('MeasurementKey.__str__: the join expression vanished')
+
+    class K:
+        def __init__(self, name, path):
+            self.name, self.path = name, path
+    for path in [(), ('a',), ('a', 'bb'), ('0', '1', '2'), ('x', 'yy', 'z', 'w')]:
+        k = K('m', path)
+
+        def attr_hook(node, it):
+            try:
+                v = it.ev(node.value)
+            except fdx.Unsupported:
+                return NotImplemented
+            if isinstance(v, K) and node.attr in ('name', 'path'):
+                return getattr(v, node.attr)
+            return NotImplemented
+
+        def call_hook(call, it):
+            nm = call_name(call)
+            if nm in ('MeasurementKey', 'cls'):
+                kw = {x.arg: it.ev(x.value) for x in call.keywords}
+                pos = [it.ev(a) for a in call.args]
+                return K(*(pos + [kw[p] for p in ('name', 'path')[len(pos):]]))
+            return NotImplemented
+        try:
+            it = fdx.NumInterp({'self': k, 'MEASUREMENT_KEY_SEPARATOR': sep}, attr_hook=attr_hook, call_hook=call_hook)
+            it.builtins.update({'tuple': tuple, 'list': list, 'len': len, 'str': str})
+            text = it.ev(joins[0])
+            it2 = fdx.NumInterp({'key_str': text, 'cls': None, 'MEASUREMENT_KEY_SEPARATOR': sep}, attr_hook=attr_hook, call_hook=call_hook)
+            it2.builtins.update({'tuple': tuple, 'list': list, 'len': len, 'str': str})
+            back = it2.call(pfn)
+        except (fdx.Unsupported, fdx.Raised) as ex:
+            raise AnalysisError(f'MeasurementKey string round trip not interpretable: {ex}')
+        ok = isinstance(back, K) and back.name == 'm' and tuple(back.path) == path and isinstance(back.path, tuple)
+        ctx.ob('C11.l', f'{ci.qual}.parse_serialized:depth={len(path)}', ok, '' if ok else
+               f'str(MeasurementKey(name="m", path={path})) = {text!r} is parsed back as name={getattr(back, "name", None)!r}, path={getattr(back, "path", None)!r}: a measurement gate read from JSON '
+               'gets a key with a different path (still == as a string, but path, repr, ordering and scope binding differ)', ci.mod.rel, pfn.lineno)
